@@ -135,6 +135,9 @@ pub fn tap_c09(bytes: &[u8], lib_key: Option<&HMACKey>, raw_key: Option<&[u8]>) 
     // base decodability: the default decoder (no validation) decides whether attribute values decode
     let base = libtap::decode(&libtap::decoder(Opts { key: false, validation: false, unknown_data: false, not_ignore: false }, None), bytes);
     let DecodeOutcome::Ok(_) = base else { return out };
+    let any_inadmissible = adm.iter().any(|a| !*a);
+    let base_ni_fails = any_inadmissible
+        && !matches!(libtap::decode(&libtap::decoder(Opts { key: false, validation: false, unknown_data: false, not_ignore: true }, None), bytes), DecodeOutcome::Ok(_));
     // independent verdicts of the admitted verifiable attributes
     let mut all_valid_nokey = true; // validation without a key: any admitted integrity attribute fails
     let mut all_valid_key = true;
@@ -197,6 +200,12 @@ pub fn tap_c09(bytes: &[u8], lib_key: Option<&HMACKey>, raw_key: Option<&[u8]>) 
                 }
             }
             DecodeOutcome::Err(e) => {
+                // with the ordering rule switched off every wire attribute has to be value-decoded, also those the
+                // rule does not admit and the default decoder therefore never looks at: a value the library's decoder
+                // refuses there is a legitimate failure (classified by the plain not_ignore decoder)
+                if o.not_ignore && any_inadmissible && base_ni_fails {
+                    continue;
+                }
                 if !o.validation {
                     out.push((
                         "C09/decode-failed-without-validation".to_string(),
@@ -313,7 +322,7 @@ pub fn extra_c09(spec: &PropSpec, args: &CheckArgs) -> ExtraResult {
     let password = "sweep-password";
     let raw_key = password.as_bytes().to_vec();
     let lib_key = libtap::short_term_key(password);
-    let tokens = ['a', 'm', 'M', 's', 'S', 'f', 'F'];
+    let tokens = ['a', 'm', 'M', 's', 'S', 'f', 'F', 't', 'r'];
     let mut pairs: HashSet<u8> = HashSet::new();
     let mut seqs: Vec<String> = vec![String::new()];
     let mut frontier = vec![String::new()];
